@@ -1,9 +1,14 @@
 import Ndt.Driver.Proto
 import Ndt.Model.Dea3
 import Ndt.Model.Richardson
+import Ndt.Model.Rule
 /-! The line-protocol driver: one operation per input line, one output line per input line. -/
 namespace Ndt.Driver
-open Ndt.Proto
+open Ndt.Proto Ndt.Gen
+
+def b2s (b : Bool) : String := if b then "1" else "0"
+def fragStr : Frag → String
+  | .even => "_even" | .odd => "_odd" | .two => "2" | .none => "-" | .higher => "_higher"
 
 def floatConsts (eps tiny : Float) : Consts Float := ⟨eps, tiny, 1.0e-4, 10.0⟩
 
@@ -23,6 +28,18 @@ def cxStr (z : Cx Rat) : String := s!"{ratStr z.re} {ratStr z.im}"
 
 def handle (w : List String) : String :=
   match w with
+  -- logrule method n order: every translated decision property of LogRule
+  | ["logrule", m, n, o] =>
+    let r : LogRule := ⟨n.toNat!, Method.ofString m, o.toNat!⟩
+    let p := r._parity r.method (r.n - 1) r.method_order
+    joinSp [b2s r._odd_derivative, b2s r._even_derivative, b2s r._derivative_mod_four_is_three,
+      b2s r._derivative_mod_four_is_zero, b2s r.eval_first_condition, b2s r._complex_high_order,
+      toString r.richardson_step, toString r.method_order, toString p, b2s r._flip_fd_rule,
+      fragStr r._get_middle_name, fragStr r._get_last_name, toString r.num_terms, toString r.rule_index,
+      b2s r._multicomplex_middle_name_guard0, toString (fd_step p), toString (fd_offset p), toString (fd_c_0 p)]
+  -- fdrule ρ method n order: LogRule(n, method, order).rule(ρ) in exact arithmetic
+  | ["fdrule", rho, m, n, o] =>
+    joinSp ((fdRule (rq rho) ⟨n.toNat!, Method.ofString m, o.toNat!⟩).map ratStr)
   -- richrule ρ step order numTerms len  (Rat): Richardson.rule(len)
   | ["richrule", rho, st, ord, nt, len] =>
     joinSp ((richRule (rq rho) st.toNat! ord.toNat! nt.toNat! len.toNat!).map ratStr)
